@@ -325,7 +325,7 @@ pub fn dist(profile: DistProfile, u: DistUse) -> BoxedStrategy<DistSpec> {
             // a constant with an offset (`start`) and/or a clamp (`max`) is still a constant
             DistUse::CounterValue | DistUse::Limit => prop_oneof![
                 5 => select(const_values(u)).prop_map(DistSpec::constant),
-                1 => (prop_oneof![3 => select(const_values(u)), 1 => select(vec![-10.0, -3.0, -1.0])], select(vec![1.0, 2.0, 5.0, 12.0]), select(vec![0.0, 0.0, 1.0, 3.0, 6.0])).prop_map(|(v, start, max)| {
+                1 => (prop_oneof![6 => select(const_values(u)), 2 => select(vec![-10.0, -3.0, -1.0]), 1 => Just(f64::MAX)], prop_oneof![8 => select(vec![1.0, 2.0, 5.0, 12.0]), 1 => Just(f64::MAX)], select(vec![0.0, 0.0, 1.0, 3.0, 6.0])).prop_map(|(v, start, max)| {
                     let mut d = DistSpec::constant(v);
                     d.start = Fx(start);
                     d.max = Fx(max);
